@@ -304,10 +304,7 @@ func runStatic(rep *kf.Reporter, st *staticStats) (constructorsOK bool, harness 
 					continue
 				}
 
-				res[i] = result{Res: fsx.Res{Kind: fsx.ErrKind(herr)}, Fam: family(herr)}
-				if herr != nil {
-					res[i].Msg = herr.Error()
-				}
+				res[i] = errResult("", herr)
 			}
 
 			lr, wr := res[0], res[1]
@@ -360,6 +357,13 @@ func runStatic(rep *kf.Reporter, st *staticStats) (constructorsOK bool, harness 
 
 			if wr.Kind != "ok" && !familyOK(true, permissive(wr.Fam)) {
 				rep.Report(sig("error-family", "Windows-typed instance returned a value of family "+wr.Fam), replay)
+			}
+
+			if lr.Kind != "ok" && wr.Kind != "ok" {
+				// the portable class of the two values (errmap.go "Portable error classes")
+				for _, what := range classFindings(callName, lr, wr) {
+					rep.Report(sig("error-class", what), replay)
+				}
 			}
 
 			if errClassReport && lr.Kind != "ok" && wr.Kind != "ok" && !classCompatible(callName, lr.Kind, wr.Kind, lr.Fam, wr.Fam) {
